@@ -75,6 +75,33 @@ class MixedDirected(Mixin, SubDirected):
     pass
 
 
+class UidHashVertex(Vertex):
+    """Equality and hash by uid (unique uids: equal means identical).  Hashing needs the instance's state."""
+
+    def __eq__(self, other):
+        return isinstance(other, UidHashVertex) and other.uid == self.uid
+
+    def __hash__(self):
+        return hash(self.uid)
+
+
+class HotVertex(Vertex):
+    """Neighbor caching switched on for this subclass only (the program-wide flag may be off)."""
+
+    NEIGHBOR_CACHING = True
+
+
+class ViewVertex(Vertex):
+    """
+    Overrides the public `links` accessor with a pure view (same links, reversed order).  Everything the
+    statements say about "the order of v.links" refers to this public accessor.
+    """
+
+    @property
+    def links(self):
+        return tuple(reversed(Vertex.links.fget(self)))
+
+
 def _twin():
     class SubVertex(Vertex):
         """Another class that merely shares its __name__ with the module-level SubVertex."""
@@ -97,11 +124,23 @@ class OddDirected(OddLink, DirectedEdge):
     """Direction-less user base class first, DirectedEdge second: it IS a directed edge."""
 
 
+class BothEdge(UnDirectedEdge, DirectedEdge):
+    """Derives from both edge classes, undirected first: the library treats it as undirected."""
+
+
+class EmptyDirected(DirectedEdge):
+    """A directed edge whose truth value is False (container-like link with __len__ == 0)."""
+
+    def __len__(self):
+        return 0
+
+
 # a DIFFERENT class with the same module and qualified name as SubDirected, but of another kind (a class statement
 # executed again with another base, as happens with factories / reloaded plugins)
 SubDirectedTwin = type("SubDirected", (UnDirectedEdge,), {"__module__": __name__, "__qualname__": "SubDirected"})
 
-LINK_CLASSES = [DirectedEdge, UnDirectedEdge, SubDirected, SubUndirected, OddLink, SubOdd, MixedDirected, OddDirected, SubDirectedTwin]
+LINK_CLASSES = [DirectedEdge, UnDirectedEdge, SubDirected, SubUndirected, OddLink, SubOdd, MixedDirected, OddDirected, SubDirectedTwin,
+                BothEdge, EmptyDirected]
 LINK_NAMES = [c.__name__ for c in LINK_CLASSES]
 KIND = {
     DirectedEdge: "D",
@@ -113,8 +152,12 @@ KIND = {
     MixedDirected: "D",
     OddDirected: "D",
     SubDirectedTwin: "U",
+    BothEdge: "U",
+    EmptyDirected: "D",
 }
-VERTEX_CLASSES = [Vertex, SubVertex, FalsyVertex, EmptyLenVertex, MixedVertex, SubVertexTwin]
+VERTEX_CLASSES = [Vertex, SubVertex, FalsyVertex, EmptyLenVertex, MixedVertex, SubVertexTwin, ViewVertex, HotVertex]
+# classes usable in histories (importable: histories are pickled; insertion-ordered `links`)
+WORLD_VERTEX_CLASSES = [Vertex, SubVertex, FalsyVertex, EmptyLenVertex, MixedVertex, UidHashVertex]
 
 
 def kind_of(link):
@@ -125,11 +168,11 @@ def kind_of(link):
     return "X"
 
 
-def make_vertex(i, vcls=None):
+def make_vertex(i, vcls=None, uid=None):
     """Deterministic vertex class per pool index unless given."""
     if vcls is None:
         vcls = VERTEX_CLASSES[(1 if i % 3 == 1 else 0) if i % 4 != 3 else 2]
-    return vcls(attributes={"i": i})
+    return vcls(attributes={"i": i}, uid=uid)
 
 
 class UnhashableFilter:
